@@ -71,6 +71,8 @@ package prometheus
 //@   props C17 C18
 //@   requires addr != nil
 //@   ensures result.1 == nil ==> result.0 != nil
+//@   ensures[C17,key-is-the-canonical-text-form-of-the-address] result.1 == nil ==> result.0.accessKey == accessKey \
+//@        && result.0.ip == pure("netip.ParseAddr", pure("net.SplitHostPort", pure("net.Addr.String", addr)).0).0
 
 // ---------------------------------------------------------------------------
 // Collectors: validity predicates
